@@ -458,6 +458,12 @@ def run(ctx):
     for key, what in check_datasets():
         hits += 1
         ctx.violation('real:' + key, what, {'repro': 'from vf.props.C15 import check_datasets; r=check_datasets(); print(r); assert not r'})
+    try:      # round 6: the seeded stream is the same in interpreters that differ only in PYTHONHASHSEED
+        from .. import extra_oracles3
+        extra_oracles3.gm_hashseed(ctx)
+    except Exception as ex:
+        ctx.obligation('oracle:extra:raised', False, 'correspondence', repr(ex))
+        ctx.violation('oracle:extra:raised:' + type(ex).__name__, 'round-6 oracle raised ' + repr(ex), {'repro': '# see tools/vf/extra_oracles3.py'})
     ctx.extra['witness_search_hits'] = hits
     ctx.trusted += ['Model.Rng is a hand-written transcription of copulas/utils.py (decorator, context manager, validation) and of the dataset context blocks; tied by the trace correspondence '
                     'AND by the statement-by-statement translation of the current source (tools/vf/rnggen.py -> Gen_rng.v) proved equal to it in Props/C15.v',
